@@ -63,6 +63,7 @@ OFFSETS = [-1000000, -1, 0, 1, 999, 1000, 1001, 1000000]
 MARKS = ["marking-definition--613f2e26-407d-48c7-9eca-b8e91df99dc9", "marking-definition--34098fce-860f-48ae-8e50-ebd3cc5e41da",
          "marking-definition--f88d31f6-486f-44da-b317-01333bde0b82", "marking-definition--5e57c739-391a-4eb3-b6be-7d15ca92d5ed"]
 FINDING_NAIVE = "C05-naive-datetime-cannot-be-versioned"
+FINDING_MAPPING = "C05-non-dict-mapping-mixed-precision-rules"
 
 
 def spec():
@@ -428,7 +429,34 @@ def gen_cases(run, n_chains, max_ops):
         case["ops"] = gen_chain(rng, case, ty, pred, max_ops)
         cases.append(case)
     cases += special_cases(run, max(20, n_chains // 8))
+    cases += mapping_cases(run, max(24, n_chains // 20))
     return cases
+
+
+def mapping_cases(run, n):
+    """Mappings that are not dicts (collections.UserDict) holding versionable content with all three versioning
+    properties: run on the implementation and judged by the oracle only (the model has no such carrier)."""
+    rng = run.rng
+    g = stixgen.Gen(rng, spec())
+    out = []
+    pool = [("2.0", t, c) for t, c in versionable_types("2.0")] + [("2.1", t, c) for t, c in versionable_types("2.1")]
+    for i in range(n):
+        ver, ty, cid = rng.choice(pool)
+        o = g.obj(cid, optional_p=0.2)
+        o.pop("granular_markings", None)
+        o.pop("object_marking_refs", None)
+        t0 = base_instant(rng)
+        modified = t0 + rng.choice([0, 1000, 123456, 999999, 500, 1500])
+        init = [[k, J(v)] for k, v in o.items() if k != "revoked"]
+        d = dict((k, j) for j, (k, _) in enumerate(init))
+        init[d["created"]][1] = ts_value(rng, t0, allow_naive=False)
+        init[d["modified"]][1] = ts_value(rng, modified, allow_naive=False)
+        init.append(["revoked", J(False)])
+        case = {"carrier": "mapping", "ver": ver, "init": init, "allow_custom": True, "ty": ty, "kind": "versionable", "naive": False}
+        pred = Predictor(ver, "dict", modified)
+        case["ops"] = gen_chain(rng, case, ty, pred, 6, marking_ok=False)
+        out.append(case)
+    return out
 
 
 def special_cases(run, n):
@@ -709,7 +737,8 @@ def oracle_case(case, res):
                     viol(i, "property %s of the new version is %s, the requested change set gives %s" % (k, json.dumps(got)[:120], str(want)[:120]))
             new_t = ser(ver, instant_of_value(sget(new, "modified")))
             if new_t is None or old_t is None or not new_t > old_t:
-                viol(i, "modified of the new version (%s us serialized) is not strictly later than the original's (%s us)" % (new_t, old_t))
+                viol(i, "modified of the new version (%s us serialized) is not strictly later than the original's (%s us)" % (new_t, old_t),
+                     FINDING_MAPPING if (carrier == "mapping" and ver == "2.1" and supplied is None) else None)
             if sup_t is not None and old_t is not None and not sup_t > old_t:
                 viol(i, "a caller-supplied modified time that is not strictly later was accepted")
             if sup_t is not None and new_t != sup_t:
@@ -717,7 +746,8 @@ def oracle_case(case, res):
             tt = time_of_text(st["ser"])
             if st["ser"] is not None:
                 if tt is None or (cur_text_t is not None and not tt > cur_text_t):
-                    viol(i, "serialized modified %r is not strictly later than the previous version's" % st["ser"])
+                    viol(i, "serialized modified %r is not strictly later than the previous version's" % st["ser"],
+                         FINDING_MAPPING if (carrier == "mapping" and ver == "2.1" and supplied is None) else None)
                 cur_text_t = tt
             chain_sers.append(new_t)
             state = new
@@ -733,7 +763,8 @@ def oracle_case(case, res):
     for a, b in zip(chain_sers, chain_sers[1:]):
         if not b > a:
             out.append(Violation("serialized modified times do not strictly increase along the chain (%s then %s)" % (a, b),
-                                 {"case": case, "check": "chain"}, None))
+                                 {"case": case, "check": "chain"},
+                                 FINDING_MAPPING if (carrier == "mapping" and ver == "2.1") else None))
             break
     return out
 
@@ -760,7 +791,7 @@ def strip(case):
 
 def run_cases(run, cases, nm, label):
     impl = common.run_impl("c05_impl", cases)
-    good = [(c, r) for c, r in zip(cases, impl) if "badcase" not in r]
+    good = [(c, r) for c, r in zip(cases, impl) if "badcase" not in r and c["carrier"] != "mapping"]
     bad = [(c, r) for c, r in zip(cases, impl) if "badcase" in r]
     terms = [model_term(c, r["init"], nm) for c, r in good]
     model = eval_by_size(label, terms)
